@@ -10,6 +10,8 @@ open Drv Ledger
   probe <Kind> <hex>        same (the harness applies no oracle to these lines: non-conforming inputs that validate the
                             model's error / panic branches)
   as    <Kind> <hex>        same, outcome classes only (cross-kind decoding)
+  schema <Type>             the model's copy of that type of the compiled ledger schema (field order, types, optional,
+                            nullable, representation) — compared with what bindnode actually loaded
   longlist <Kind> <n> <cidhex>   the node of that kind whose link list is n copies of the CID, built as a typed value and
                             encoded with `Ref.encode`; accepted-by-both iff both models return its observation
 -/
@@ -121,8 +123,23 @@ def longlist (k : Kind) (n : Nat) (c : Cid) : String :=
     | .err, .ok _ => "fast-rejects"
     | .err, _ => "both-reject"
 
+def showField (f : FieldSpec) : String :=
+  let flag := if f.optional ∧ f.nullable then "optnull" else if f.optional then "opt" else if f.nullable then "null" else "req"
+  s!"{f.name}:{f.ty}:{flag}"
+
+/-- the model's copy of the compiled schema, in the harness's canonical form -/
+def showSchema (t : String) : String :=
+  match Ledger.schema.find? (·.1 = t) with
+  | some (_, fs) => "struct tuple " ++ " ".intercalate (fs.map showField)
+  | none =>
+    match Ledger.schemaLists.find? (·.1 = t) with
+    | some (_, e) => s!"list {e} nonnull"
+    | none => if Ledger.schemaBytes.contains t then "bytes" else "unknown-type"
+
 def step (l : String) : String :=
   match words l with
+  | ["schema", t] => showSchema t
+  | ["schema-files"] => "same"
   | ["node", k, h] | ["probe", k, h] =>
     (match parseKind k with
      | some k => let b := unhexT h; line (fastRes k b) (refRes k b) true
